@@ -13,6 +13,8 @@ const REPL: &str = "use shuttle::sync::Mutex;";
 fn main() {
     println!("cargo:rerun-if-changed={SRC}");
     println!("cargo:rerun-if-changed=build.rs");
+    // the planned repo hook guards the import with this cfg; keep the lint quiet if it appears
+    println!("cargo:rustc-check-cfg=cfg(rten_verif_shuttle)");
     let text = std::fs::read_to_string(SRC).unwrap_or_else(|e| panic!("vc-misc build.rs: cannot read {SRC}: {e}"));
     let hits = text.lines().filter(|l| l.trim_end() == NEEDLE).count();
     if hits != 1 {
